@@ -184,8 +184,8 @@ func superviseDecode(c *vfw.Ctx) {
 			}
 			c.Case(true)
 			c.Outcome("VIOLATION")
-			c.Violate("crash:"+r.Entry+":"+class, fmt.Sprintf("%s(%s): the decoding process died (%s); log tail:\n%s",
-				epNames[int(nb[1])%3], what, class, tail(string(logb), 1500)), r)
+			c.Violate("crash:"+r.Entry+":"+class, fmt.Sprintf("%s(%s): the decoding process died (%s); log:\n%s",
+				epNames[int(nb[1])%3], what, class, crashExcerpt(string(logb), 1500)), r)
 			c.Incomplete("decode worker crashed; the rest of this shard's inputs were not explored")
 			return
 		}
@@ -241,6 +241,20 @@ func crashClass(log string, runErr error) string {
 		return "exit:" + runErr.Error()
 	}
 	return "no-result"
+}
+
+// crashExcerpt is the part of the worker log that starts at the runtime's fatal message.
+func crashExcerpt(log string, n int) string {
+	for _, mark := range []string{"runtime: goroutine stack exceeds", "fatal error:", "panic:", "unexpected signal"} {
+		if i := strings.Index(log, mark); i >= 0 {
+			log = log[i:]
+			if len(log) > n {
+				log = log[:n]
+			}
+			return log
+		}
+	}
+	return tail(log, n)
 }
 
 func tail(s string, n int) string {
